@@ -20,6 +20,7 @@ LAY = {
     "inline": dict(tc0=6, tc1=46, cend=53, cbeg=5, slines=1, elines=1, len=58, elen=22),
     "cont":   dict(tc0=6, tc1=46, cend=13, cbeg=0, slines=2, elines=2, len=50, elen=17),
     "mltag":  dict(tc0=6, tc1=25, cend=32, cbeg=0, slines=2, elines=1, len=28, elen=17),
+    "mb":     dict(tc0=28, tc1=68, cend=72, cbeg=0, slines=1, elines=1, len=72, elen=14),   # character columns
 }
 RULES = {"affects": 'affects=":zz" p=a', "count": 'line-count="<0" q'}
 POOL = "034569ABCDEFGHIJKLMNOPQRSTUVWXYZ"   # one repeated character per code line; none occurs in tag lines
@@ -35,6 +36,9 @@ def s_line(lay, name, rule, kind=None, old=False):
     n = ")n" if (kind == "cmtB" and old) else "(n" if kind == "cmtB" else "nn"
     m = ")m" if (kind == "cmtA" and old) else "(m" if kind == "cmtA" else "mm"
     tag = tag_text(name, rule, v)
+    if lay == "mb":
+        # 24 two-byte characters before the tag: character columns and byte columns differ by 24
+        return "// %s %s %s" % ("é" * 24, tag, m)
     if lay == "mltag":
         # first line of a start tag that spans two lines
         return '/* %s <block name="%s" v="%s"' % (n, name, v)
@@ -57,7 +61,7 @@ def e_line(lay, kind=None, old=False):
     m = ")m" if (kind == "endcmt" and old) else "(m" if kind == "endcmt" else "mm"
     if lay == "mltag":
         return "/* </block> %s */" % m
-    if lay == "line":
+    if lay in ("line", "mb"):
         return "// </block> %s" % m
     if lay == "inline":
         pre = "8288" if (kind == "pre" and old) else "8188"
@@ -76,8 +80,12 @@ def selfcheck_layouts():
     assert s2.index(">") == L["tc1"] and len(s2) == 32 and s2.index("*/") + 2 == L["cend"] and s2[5] == "(", (s2, len(s2))
     assert c_line_mltag("count").index(">") == L["tc1"] and c_line_mltag("affects", "cmtA2")[27] == "("
     assert len(e_line("mltag")) == L["elen"] and e_line("mltag", "endcmt")[12] == "("
+    L = LAY["mb"]
+    s1 = s_line("mb", "ba", "affects")
+    assert s1.index("<block") == L["tc0"] and s1.index(">") == L["tc1"] and len(s1) == L["len"] and s1[L["tc0"] + 20] == "(", s1
+    assert s_line("mb", "ba", "affects", "cmtA")[L["tc1"] + 2] == "(" and len(s1.encode()) - len(s1) == 24
     for lay, L in LAY.items():
-        if lay == "mltag":
+        if lay in ("mltag", "mb"):
             continue
         s = s_line(lay, "ba", "affects")
         assert s.index("<block") == L["tc0"], (lay, s)
@@ -284,14 +292,18 @@ def attribute(p, obs_listed, obs_content, unreliable):
         return not violates(c["content"], f["content"]) and not violates(c["select"], f["content"] or f["tag"])
     if meets(p["lin"]):
         return ("F1",)
+    if meets(p["u1"]):
+        return ("U1",)
     if meets(p["fix1"]):
         return ("DV1",)
     if meets(p["fix2"]):
         return ("DV2",)
     if meets(p["fix12"]):
         return ("DV1", "DV2")   # needs both repairs: listed findings DV1 or DV2 both apply
-    if meets(p["ideal"]):
+    if meets(p["idealc"]):
         return ("DV2p",)
+    if meets(p["ideal"]):
+        return ("U1+DV2p",)    # needs the U1 repair and the ideal pairing: not a single listed finding
     return ()
 
 
